@@ -69,16 +69,19 @@ def bestShadowed (sh : GoMap Nat Ep) (name : Nat) : Option Nat :=
       | some b => if p.1 < b then some p.1 else some b
     else best) none
 
-/-- "Updating per-endpoint chains" … `delete(m.pendingWlEpUpdates, id)`. -/
-def Mgr.activate (m : Mgr) (id : Nat) (old : Option Ep) (w : Ep) : Mgr :=
-  let m := match old with
-    | some o =>
-      if o.name ≠ w.name then
-        -- interface name changed, cleaning up old state
-        let m := m.removeChainsOf id
-        { m with routes := del m.routes o.name, ifaceToID := del m.ifaceToID o.name }
-      else m
-    | none => m
+/-- The `promoteShadowedWorkload` closure: the interface `name` has just been released by its active
+endpoint; queue the smallest endpoint shadowed on it that has no update/removal of its own pending
+(`pend` = the entries that are in `pendingWlEpUpdates` when the scan runs). -/
+def Mgr.promote (m : Mgr) (pend : Pending) (name : Nat) : Mgr × Option (Nat × Ep) :=
+  match bestShadowed (m.shadowed.filter (fun p => (get pend p.1).isNone)) name with
+  | some b =>
+    match get m.shadowed b with
+    | some e => ({ m with shadowed := del m.shadowed b }, some (b, e))
+    | none => (m, none)
+  | none => (m, none)
+
+/-- "Updating per-endpoint chains" … `delete(m.shadowedWlEndpoints, id)`: program `w` for `id`. -/
+def Mgr.activate (m : Mgr) (id : Nat) (w : Ep) : Mgr :=
   { m with
     chains := set m.chains w.name ⟨id, w.up, w.data⟩,
     chainsOf := set m.chainsOf id w.name,
@@ -88,48 +91,69 @@ def Mgr.activate (m : Mgr) (id : Nat) (old : Option Ep) (w : Ep) : Mgr :=
     -- "The endpoint is active now; drop any copy left from when it was shadowed"
     shadowed := del m.shadowed id }
 
-/-- Body of the loop for one pending entry; `pend` = the OTHER entries still pending (the Go code has
-already done `delete(m.pendingWlEpUpdates, id)` when it scans for a shadowed endpoint to promote, and
-skips shadowed endpoints that have their own update or removal pending).  Returns the new state and the
-update it queued (if any). -/
+/-- The endpoint takes (or keeps) its interface: if its interface name changed, the old name's state is
+cleaned up first and an endpoint shadowed on the old name is promoted. -/
+def Mgr.claim (m : Mgr) (pendU : Pending) (id : Nat) (old : Option Ep) (w : Ep) : Mgr × Option (Nat × Ep) :=
+  let r : Mgr × Option (Nat × Ep) := match old with
+    | some o =>
+      if o.name ≠ w.name then
+        -- interface name changed, cleaning up old state
+        let m := m.removeChainsOf id
+        ({ m with routes := del m.routes o.name, ifaceToID := del m.ifaceToID o.name } : Mgr).promote pendU o.name
+      else (m, none)
+    | none => (m, none)
+  (r.1.activate id w, r.2)
+
+/-- Body of the loop for one pending entry; `pend` = the OTHER entries still pending.  In the update
+branch the Go code deletes the entry itself from `pendingWlEpUpdates` only at the end, so the scans there
+see `pend` plus the entry (`pendU`); in the removal branch it is deleted before the scan.  Returns the
+new state and the update it queued (if any). -/
 def Mgr.process (m : Mgr) (pend : Pending) (id : Nat) (w : Option Ep) : Mgr × Option (Nat × Ep) :=
   let old := get m.active id
   match w with
   | some w =>
+    let pendU := set pend id (some w)
     match (match get m.ifaceToID w.name with
       | some e => if e ≠ id then some e else none
       | none => none) with
     | some existing =>
       if existing < id then
-        -- existing endpoint takes preference
-        ({ m with shadowed := set m.shadowed id w }, none)
+        -- existing endpoint takes preference; if this endpoint is active under its previous interface
+        -- name it releases that name (and an endpoint shadowed there takes over)
+        let r : Mgr × Option (Nat × Ep) := match old with
+          | some o => (m.removeActiveWorkload (some o) id).promote pendU o.name
+          | none => (m, none)
+        ({ r.1 with shadowed := set r.1.shadowed id w }, r.2)
       else
         -- new endpoint takes preference; remove existing
         let m := { m with shadowed := match get m.active existing with
           | some e => set m.shadowed existing e
           | none => m.shadowed }
         let m := m.removeActiveWorkload (get m.active existing) existing
-        (m.activate id old w, none)
-    | none => (m.activate id old w, none)
+        m.claim pendU id old w
+    | none => m.claim pendU id old w
   | none =>
     let m := m.removeActiveWorkload old id
     let m := { m with shadowed := del m.shadowed id }
     match old with
-    | some o =>
-      match bestShadowed (m.shadowed.filter (fun p => (get pend p.1).isNone)) o.name with
-      | some b =>
-        match get m.shadowed b with
-        | some e => ({ m with shadowed := del m.shadowed b }, some (b, e))
-        | none => (m, none)
-      | none => (m, none)
+    | some o => m.promote pend o.name
     | none => (m, none)
 
-/-- `resolveWorkloadEndpoints` for one pending update (a promotion queues one more; a promoted
-update is never a removal, so it queues nothing further). -/
-def Mgr.resolve (m : Mgr) (id : Nat) (w : Option Ep) : Mgr :=
-  match m.process [] id w with
-  | (m', some (b, e)) => (m'.process [] b (some e)).1
-  | (m', none) => m'
+/-- Deterministic processing of the pending map, first entry first (used when ONE update is pending: then
+there is never more than one entry). -/
+def Mgr.resolveLoop : Nat → Mgr → Pending → Mgr
+  | 0, m, _ => m
+  | _ + 1, m, [] => m
+  | fuel + 1, m, q :: ps =>
+    let pend := del (q :: ps) q.1
+    let r := m.process pend q.1 q.2
+    let pend := match r.2 with
+      | some (b, e) => set pend b (some e)
+      | none => pend
+    Mgr.resolveLoop fuel r.1 pend
+
+/-- `resolveWorkloadEndpoints` for one pending update (plus the promotion it may queue). -/
+def Mgr.resolve (m : Mgr) (id : Nat) (w : Option Ep) : Mgr := m.resolveLoop 4 [(id, w)]
 
 /-- Every state `resolveWorkloadEndpoints` can end in when SEVERAL updates are pending, whatever order the
 Go map range yields them: at each step any pending entry may be the next one; a promotion queues
@@ -175,14 +199,6 @@ def liveStep (l : GoMap Nat Ep) : Op → GoMap Nat Ep
 /-- The live endpoints after a history: last update not followed by a removal. -/
 def live (ops : List Op) : GoMap Nat Ep := ops.foldl liveStep []
 
-/-- No live endpoint ever changes its interface name (starting from live endpoints `l`). -/
-def NoRenameFrom : GoMap Nat Ep → List Op → Prop
-  | _, [] => True
-  | l, .update id w :: r => (∀ e, get l id = some e → e.name = w.name) ∧ NoRenameFrom (set l id w) r
-  | l, .remove id :: r => NoRenameFrom (del l id) r
-
-def NoRename (ops : List Op) : Prop := NoRenameFrom [] ops
-
 /-! ### Histories of batches (several updates, one CompleteDeferredWork) -/
 
 abbrev Batch := List (Nat × Option Ep)
@@ -201,14 +217,6 @@ def liveBs (bs : List Batch) : GoMap Nat Ep := bs.foldl liveB []
 def ReachFrom : Mgr → List Batch → Mgr → Prop
   | m, [], m' => m' = m
   | m, us :: r, m' => ∃ m1, m1 ∈ m.batch us ∧ ReachFrom m1 r m'
-
-/-- No batch renames an endpoint that is live when the batch starts (the manager only sees the last
-message of every id, so "delete + re-create under another interface name" inside one batch counts). -/
-def NoRenameBsFrom : GoMap Nat Ep → List Batch → Prop
-  | _, [] => True
-  | l, us :: r =>
-    (∀ id w, get (mkPending us) id = some (some w) → ∀ e, get l id = some e → e.name = w.name) ∧
-    NoRenameBsFrom (liveB l us) r
 
 def Op.toBatch : Op → Batch
   | .update id w => [(id, some w)]
